@@ -185,6 +185,8 @@ def queue_pipeline_ops(run, g: nx.Graph, want=("canon", "serialize")):
         line, real, sinfo = R.op_serialize(c2)
         run.corr(line, real, "observable")
         s = sinfo.get("string")
+        if run.stats["corr_op:COPY"] < 10 * (20 if THOROUGH else 1):
+            run.corr(*R.op_copy(c.copy()), "exact")          # networkx's Graph.copy against the model's container
         if run.stats["corr_op:FINAL"] < 25 * (20 if THOROUGH else 1):
             # the two internal steps of the serializer (cosmetic relabelling, sort by atomic number), each against the model
             run.corr(*R.op_final(c.copy()), "observable")
@@ -379,7 +381,7 @@ def work_C01(run, rng, budget):
             if s2 != s0:
                 run.fail("string-differs-under-relabelling", f"{os.path.basename(f)}: {s0!r} vs {s2!r}",
                          {"file": f, "mapping": mp, "strings": [s0, s2]})
-    return "random molecules from 20 families (sparse/dense/trees/paths/cycles/ladders/combs/complete/bipartite/unions/" \
+    return "random molecules from 23 families (sparse/dense/trees/paths/cycles/ladders/combs/complete/bipartite/unions/" \
            "prisms/cube/Petersen/stars/isolated/rare elements/partially labelled orbits/rook vs Shrikhande/peptides/two components) " \
            "x 3 relabellings (permutation, atom listing, bond listing, bond orientation) + relabelled repository molfiles; " \
            "non-trivial = at least 2 atoms and a non-identity permutation; distinct by (molecule, permutation)"
